@@ -39,7 +39,8 @@ PROFILE = ["release"]   # quick: release build; thorough: debug build (collects 
 # wire encoding (see IterLang.p_prog)
 
 
-OKINDS = ["deck", "bag", "vbag", "chained"]
+OKINDS = ["deck", "bag", "vbag", "chained", "scaled", "limited", "counted", "fielditer"]
+WRAPPED = ["scaled", "limited", "counted"]
 
 
 def Z(z):
@@ -83,6 +84,8 @@ def w_fn(f):
         return [3, Z(f[1])]
     if k == "press":
         return [4, Z(f[1]), f[2]]
+    if k == "deepfn":
+        return [5, f[1], Z(f[2])]
     return [2] + w_bytes(f[1].encode("utf-8"))
 
 
@@ -96,6 +99,8 @@ def w_pr(p):
         return [2] + w_value(p[1])
     if k == "true":
         return [3]
+    if k == "notin":
+        return [5, Z(p[1]), Z(p[2])]
     return [4]
 
 
@@ -173,15 +178,21 @@ def w_stmt(s):
         return [15, s[1], s[2], Z(s[3]), Z(s[4])]
     if k == "press":
         return [16, Z(s[1]), s[2]]
+    if k == "pcalls":
+        return [17, s[1]]
+    if k == "pcnt":
+        return [18, s[1]]
+    if k == "descend":
+        return [19, s[1]] + w_block(s[2])
     raise ValueError(s)
 
 
-def w_prog(fun, loc, direct, body):
-    return " ".join(str(x) for x in [int(fun), int(loc), int(direct), len(body)] + [t for s in body for t in w_stmt(s)])
+def w_prog(fun, loc, direct, fuel, body):
+    return " ".join(str(x) for x in [int(fun), int(loc), int(direct), int(fuel), len(body)] + [t for s in body for t in w_stmt(s)])
 
 
 def wire_of(p):
-    return w_prog(p["fun"], p["loc"], p.get("dir", False), p["body"])
+    return w_prog(p["fun"], p["loc"], p.get("dir", False), p.get("fuel", 150), p["body"])
 
 
 # ------------------------------------------------------------------------------------------
@@ -195,6 +206,8 @@ def walk(ss):
             yield from walk(s[2])
         elif s[0] == "if":
             yield from walk(s[3])
+        elif s[0] == "descend":
+            yield from walk(s[2])
 
 
 def has(ss, kind):
@@ -254,6 +267,8 @@ def loop_nesting(ss):
             best = max(best, 1 + loop_nesting(s[2]))
         elif s[0] == "if":
             best = max(best, loop_nesting(s[3]))
+        elif s[0] == "descend":
+            best = max(best, loop_nesting(s[2]))
     return best
 
 
@@ -456,7 +471,9 @@ def g_obj(rng, n, kind=None, size=None):
     """obN = a user-defined iterable whose iter() is not the identity"""
     kind = kind or rng.choice(OKINDS)
     size = rng.choice([0, 1, 3, 4, 5]) if size is None else size
-    return ("obj", n, kind, g_values(rng, size, "num" if kind == "chained" or rng.random() < 0.7 else "str"), rng.choice([1, 10, -2]))
+    z = {"scaled": rng.choice([2, 10]), "limited": rng.choice([0, 1, 2, 5])}.get(kind, rng.choice([1, 10, -2]))
+    numeric = kind in ("chained", "scaled") or rng.random() < 0.7
+    return ("obj", n, kind, g_values(rng, size, "num" if numeric else "str"), z)
 
 
 # every way core.yl lets a program consume an iterable E (the methods of class Iter + the for statement + chains)
@@ -673,9 +690,13 @@ def marker_heights(rec, nil, pop):
     """stack_len - slot_base at every `nil;` statement (Nil at pc immediately followed by Pop at pc+1)"""
     ts = rec.tagged("T")
     hs = []
+    base = {}
     for a, c in zip(ts, ts[1:]):
         if a[3] == nil and c[3] == pop and a[0] == c[0] and a[1] == c[1] and int(c[2]) == int(a[2]) + 1:
-            hs.append(int(a[4]) - int(a[5]))
+            # relative to the first marker of the same function (fn main / the script / the closure of a descend block:
+            # the first marker of each of them stands at loop depth 0)
+            h = int(a[4]) - int(a[5])
+            hs.append(h - base.setdefault(a[1], h))
     return hs
 
 
@@ -704,17 +725,24 @@ def evaluate(ctx, progs, tag):
         p["early"] = int(early)
     ok = [p for p in progs if not p.get("bad")]
     binary = ctx.harness(PROFILE[0])
-    recs = yvlib.run_harness(binary, ["trace - %d " % TRACE_LIMIT + hx(p["src"]) for p in ok], case_timeout_ms=CASE_TIMEOUT_MS)
+    # long-run programs would overflow the trace: they are run plainly (no stack-height comparison)
+    recs = yvlib.run_harness(binary, [("run - " if p.get("notrace") else "trace - %d " % TRACE_LIMIT) + hx(p["src"]) for p in ok],
+                             case_timeout_ms=CASE_TIMEOUT_MS)
     nil, pop = opcode_numbers()
     for p, r in zip(ok, recs):
         p["impl"] = r.output
         p["impl_res"] = r.result
-        p["impl_h"] = marker_heights(r, nil, pop)
+        p["impl_h"] = None if p.get("notrace") else marker_heights(r, nil, pop)
     return ok
 
 
 def rel(hs):
     return [h - hs[0] for h in hs] if hs else []
+
+
+def public(lines):
+    """`@` lines (call counts of a wrapped iterator's field) are compared with the Mechanism only"""
+    return [l for l in lines if not l.startswith("@")]
 
 
 def known_class_of(p):
@@ -730,27 +758,27 @@ def judge(ctx, p, stats):
         return
     res_ok = p["impl_res"][0] == "ok"
     m_ok = res_ok and p["impl"] == p["mech"]
-    h_ok = rel(p["impl_h"]) == rel(p["mech_h"])
+    h_ok = p["impl_h"] is None or p["impl_h"] == rel(p["mech_h"])
     kc = known_class_of(p)
     if p["spec"] == ["SKIP"]:
         stats["spec_skip"] += 1
         s_ok = True
     else:
         stats["spec_checked"] += 1
-        s_ok = res_ok and p["impl"] == p["spec"]
+        s_ok = res_ok and public(p["impl"]) == p["spec"]
     if not s_ok:
         ctx.violation("printed sequence differs from the Spec (elements + List.map/filter/fold_left)", input=p["src"],
-                      expected=p["spec"], actual=p["impl"] + ([] if res_ok else [str(p["impl_res"])]), known_class=kc,
+                      expected=p["spec"][:60], actual=public(p["impl"])[:60] + ([] if res_ok else [str(p["impl_res"]), str(getattr(p.get("rec"), "messages", ""))[:200]]), known_class=kc,
                       wire=wire, stream=p["stream"])
     if not h_ok:
         # the VM's stack at the statement following a loop is not what it was before the loop
         ctx.violation("iteration state left on the VM stack: height at the markers around the loops differs from the "
-                      "model's hidden locals", input=p["src"], expected=rel(p["mech_h"]), actual=rel(p["impl_h"]),
+                      "model's hidden locals", input=p["src"], expected=rel(p["mech_h"]), actual=p["impl_h"],
                       known_class=kc, wire=wire, stream=p["stream"])
     if not m_ok and s_ok:
         ctx.corr_broken.append("impl != M (IterLang.eval_mech) on %s | impl %s %s | model %s" % (
             wire[:300], p["impl"][:40], p["impl_res"], p["mech"][:40]))
-    if p["mech"] != p["spec"] and p["spec"] != ["SKIP"]:
+    if public(p["mech"]) != p["spec"] and p["spec"] != ["SKIP"]:
         ctx.broken.append("model != spec on a program (contradicts the refinement theorems): " + wire[:300])
     stats["checked"] += 1
 
